@@ -353,7 +353,7 @@ def start_docs(draw):
     if draw(st.booleans()):
         doc = draw(D.measure_documents(D.mprofile(others=draw(st.booleans()), sig_changes=draw(st.booleans()))))
     else:
-        doc = draw(D.documents(D.profile('full')))
+        doc = draw(D.documents(D.profile('full', hidden_bars=True)))
     for _ in range(draw(st.integers(0, 3))):  # reference records and other global comments anywhere
         doc['rows'].insert(draw(st.integers(0, len(doc['rows']))), {'g': draw(G.global_comments())})
     return doc
